@@ -134,9 +134,8 @@ pub fn run(tier: Tier) -> i32 {
     let th = tier.thorough();
     verif_cov::reset();
     // S1: complete small scope
-    let n: i128 = if th { 6_000_000 } else { 600_000 };
-    let small: Vec<i128> = (-n..=n).collect();
-    run.par_for(&small, || {}, |&a, l| { for f in 0..=18u8 { case(a, f, l); } });
+    let n: i128 = if th { 25_000_000 } else { 600_000 };
+    run.par_range(-n, n, || {}, |a, l| { for f in 0..=18u8 { case(a, f, l); } });
     run.stage("S1 small scope", json!({"|a|<=": n, "scales": 19}));
     // S2: alphabet
     let k = alpha::coeffs(2, 50, if th { Level::Thorough } else { Level::Mid });
